@@ -91,6 +91,23 @@ def units(rng, tier):
         c1, c2 = mk(), mk()
         us.append(U("all_combinations", {"keep": True, "b1": mkbins(c1, True), "b2": mkbins(c2, True)}, f"allcomb/contents-k{k}-random"))
         us.append(U("all_combinations", {"keep": False, "b1": mkbins(sorted(sum(l) for l in c1), False), "b2": mkbins(sorted(sum(l) for l in c2), False)}, f"allcomb/sums-k{k}-random"))
+    # 4 and 5 bins whose contents repeat over a tiny pool (many equal bins, equal sums with different contents): the de-duplication of
+    # combinations has to count multiplicities here - bounded-exhaustive over multisets of bins
+    for k, pool in ((4, [[], [1], [2], [1, 1]]), (5, [[1], [2], []]), (5, [[1], [2]]), (5, [[1], [1, 1], [2]])):
+        ms = list(itertools.combinations_with_replacement(range(len(pool)), k))
+        pairs = [(a, b) for a in ms for b in ms]
+        if tier == "quick":
+            pairs = rng.sample(pairs, min(len(pairs), 90))
+        else:
+            pairs = rng.sample(pairs, min(len(pairs), 700))
+        for a, b in pairs:
+            c1 = [pool[i] for i in a]
+            c2 = [pool[i] for i in b]
+            rng.shuffle(c1)
+            rng.shuffle(c2)
+            c1 = sorted(c1, key=sum)
+            c2 = sorted(c2, key=sum)
+            us.append(U("all_combinations", {"keep": True, "b1": mkbins(c1, True), "b2": mkbins(c2, True)}, f"allcomb/contents-k{k}-repeated-bins"))
     # ---- CKK pruning bound
     for _ in range(150 if tier == "quick" else 1500):
         k = rng.randint(1, 5)
